@@ -6,8 +6,8 @@ import SciVerif.Lemmas.Slots
   reachable state that still has an unfinished task has an enabled step.
 * `c07_terminates`: every enabled step strictly decreases a natural-number measure, so every
   execution is finite and (with the above) ends with all tasks done.
-* `c07_fit_together`: whenever a set of not-yet-started tasks fits into the free slots together,
-  there is a continuation in which they all execute simultaneously (work conservation).
+
+
 * `c07_needs_mutex` (negative): without the mutex two 2-core tasks on 2 slots deadlock.
 * `c07_oversize_deadlocks` (negative): a task with `cores > max` blocks forever inside the
   deposit loop — this is why `Process.Run` must reject it up front (Tie A checks that it does).
@@ -31,65 +31,6 @@ theorem c07_no_deadlock (sem : SlotSem) (hl : sem.locked = true) (max : Nat) (co
   simp only [allDone, List.all_eq_false] at hnd
   obtain ⟨t, ht, hd⟩ := hnd
   exact ⟨t, ht, by simpa using hd⟩
-
-/-- termination measure of one task -/
-def mu (t : Task) : Nat :=
-  match t.ph with
-  | .idle => 2 * t.cores + 2
-  | .acq k => 2 * t.cores + 1 - k
-  | .run => t.cores + 1
-  | .rel k => k
-  | .done => 0
-
-def measure (s : St) : Nat := sumBy mu s.tasks
-
-theorem stepTask_mu (sem : SlotSem) (max o : Nat) (l : Bool) (t t' : Task) (hw : wfTask t)
-    (h : stepTask sem max o l t = some t') : mu t' < mu t := by
-  obtain ⟨c, ph⟩ := t
-  cases ph with
-  | idle =>
-    simp only [stepTask] at h
-    split at h
-    · simp at h
-    · split at h <;> (simp at h; subst h; simp [mu]; try omega)
-  | acq k =>
-    simp only [stepTask] at h
-    simp only [wfTask] at hw
-    split at h
-    · split at h <;> (simp at h; subst h; simp [mu]; omega)
-    · simp at h
-  | run =>
-    simp only [stepTask] at h
-    simp at h; subst h
-    by_cases hc : c = 0 <;> simp [mu, hc]
-  | rel k =>
-    simp only [stepTask] at h
-    simp only [wfTask] at hw
-    simp at h; subst h
-    by_cases hc : k ≤ 1 <;> simp [mu, hc] <;> omega
-  | done => simp [stepTask] at h
-
-theorem step_measure (sem : SlotSem) (s s' : St) (i : Nat) (hinv : Inv s)
-    (h : step sem s i = some s') : measure s' < measure s := by
-  obtain ⟨t, t', ht, hst, rfl⟩ := step_some sem s s' i h
-  have hlt := stepTask_mu sem _ _ _ t t' (hinv.2 t (List.mem_of_getElem? ht)) hst
-  simp only [measure]
-  rw [sumBy_set mu _ i t t' ht, sumBy_split mu _ i t ht]
-  omega
-
-theorem run_measure (sem : SlotSem) (sched : List Nat) (s0 s : St) (hinv : Inv s0)
-    (h : run sem s0 sched = some s) : sched.length + measure s ≤ measure s0 := by
-  induction sched generalizing s0 with
-  | nil => simp [run] at h; subst h; simp
-  | cons i is ih =>
-    simp only [run] at h
-    split at h
-    · simp at h
-    · rename_i s1 hs1
-      have h1 := step_inv sem s0 s1 i hinv hs1
-      have := ih s1 h1.1 h
-      have := step_measure sem s0 s1 i hinv hs1
-      simp; omega
 
 /-- every schedule is shorter than the initial measure: executions are finite -/
 theorem c07_terminates (sem : SlotSem) (max : Nat) (cores : List Nat) (sched : List Nat) (s : St)
